@@ -726,7 +726,10 @@ func execSegment(sc *ck.Script, i int, p *prepared) bool {
 		os.Mkdir(p.base, 0o755)
 	}
 	if len(win) == 0 {
-		panic("empty window")
+		// the operation issued no system call (e.g. Untag of an unknown reference):
+		// there is nothing to be killed in
+		run.Count("earlier-segment-without-system-call")
+		return false
 	}
 	k := seg.K % len(win)
 	ktr, err := ck.Run(exe, p.base, scriptPath, p.dir, &ck.Inject{Name: win[k].Name, Ord: win[k].Ord})
@@ -1130,7 +1133,7 @@ func main() {
 		return
 	}
 	r := run.Rand
-	nHist := run.Scale(6, 28)
+	nHist := run.Scale(4, 40)
 	perHist := len(finalKinds)
 	ki := int(run.Seed) * 5
 	for h := 0; h < nHist; h++ {
@@ -1155,7 +1158,7 @@ func main() {
 		runMain(&ck.Script{Blobs: universe(r, false), Final: ck.Op{Kind: "init"}}, p, -1, true)
 	}()
 	// Delete with AutoGC (cascades), GC and reopen, on the universe with referrers
-	nGC := run.Scale(3, 16)
+	nGC := run.Scale(2, 24)
 	for h := 0; h < nGC; h++ {
 		for _, kind := range gcKinds {
 			sc := &ck.Script{Blobs: universeGC(r), AutoGC: !strings.HasPrefix(kind, "gc-") || r.Bool()}
